@@ -3,4 +3,7 @@ From VF Require Export Sched.Spec.
 From VF Require Export Sched.ProofsAssoc Sched.ProofsBasic Sched.ProofsFrame Sched.ProofsFoot
   Sched.ProofsStreams Sched.ProofsFaithful Sched.ProofsExec Sched.ProofsRoute Sched.ProofsSpec Sched.ProofsPolicy
   Sched.ProofsInv Sched.ProofsRefs Sched.ProofsRefs2 Sched.ProofsInflight
-  Sched.ProofsPrims Sched.ProofsWaiters Sched.ProofsEnabled Sched.ProofsArmed Sched.ProofsAbsorb Sched.ProofsSyncOut Sched.ProofsTimeouts Sched.ProofsStages.
+  Sched.ProofsPrims Sched.ProofsWaiters Sched.ProofsEnabled Sched.ProofsArmed Sched.ProofsAbsorb Sched.ProofsSyncOut Sched.ProofsTimeouts Sched.ProofsStages
+  Sched.ProofsRead Sched.ProofsStruct Sched.ProofsWorkers Sched.ProofsWorkers2 Sched.ProofsWorkers3
+  Sched.ProofsExcl Sched.ProofsExcl2 Sched.ProofsExcl3 Sched.ProofsExcl4 Sched.ProofsExcl5 Sched.ProofsExcl6 Sched.ProofsExcl7 Sched.ProofsExcl8
+  Sched.ProofsC01.
